@@ -11,7 +11,6 @@ import (
 	"io/fs"
 	"os"
 	"path/filepath"
-	"strconv"
 	"sync"
 	"time"
 
@@ -203,17 +202,10 @@ func pobjW(p string) vsched.Acc {
 func dobj(p string, w bool) vsched.Acc {
 	return vsched.Acc{Obj: vsched.Str("D:" + filepath.Dir(p)), W: w}
 }
-func fobj(id int, w bool) vsched.Acc {
-	return vsched.Acc{Obj: vsched.Str("F:" + strconv.Itoa(id)), W: w}
-}
-
-func idOf(p string) int {
-	tab.mu.Lock()
-	defer tab.mu.Unlock()
-	if !tab.tracking {
-		return 0
-	}
-	return tab.ids[filepath.Clean(p)]
+// content of the file a handle was opened on (same object as the path:
+// klevdb never uses a handle after its file has been renamed)
+func (f *File) cobj(w bool) vsched.Acc {
+	return vsched.Acc{Obj: vsched.Str("P:" + f.path), W: w}
 }
 
 // ---------------------------------------------------------------- File
@@ -231,6 +223,15 @@ func wrap(f *os.File, name string) *File {
 
 func OpenFile(name string, flag int, perm FileMode) (*File, error) {
 	clean := filepath.Clean(name)
+	// the scheduling point comes before anything that synchronises (the table
+	// lock below would otherwise order the callers for the race detector)
+	if vsched.Active {
+		if flag&(os.O_CREATE|os.O_TRUNC) != 0 {
+			vsched.Visible(vsched.KFS, pobjW(clean), dobj(clean, true))
+		} else {
+			vsched.Visible(vsched.KFS, pobj(clean))
+		}
+	}
 	tab.mu.Lock()
 	tracked := tab.in(clean)
 	tab.mu.Unlock()
@@ -242,13 +243,6 @@ func OpenFile(name string, flag int, perm FileMode) (*File, error) {
 		return wrap(f, name), nil
 	}
 	writes := flag&(os.O_CREATE|os.O_TRUNC) != 0
-	if vsched.Active {
-		if writes {
-			vsched.Visible(vsched.KFS, pobjW(clean), dobj(clean, true), fobj(idOf(clean), flag&os.O_TRUNC != 0))
-		} else {
-			vsched.Visible(vsched.KFS, pobj(clean))
-		}
-	}
 	existed := false
 	if writes {
 		if _, err := os.Lstat(clean); err == nil {
@@ -292,11 +286,11 @@ func Create(name string) (*File, error) {
 func (f *File) tracked() bool { return f.id != 0 }
 
 func (f *File) Write(b []byte) (int, error) {
+	if vsched.Active {
+		vsched.Visible(vsched.KFS, f.cobj(true))
+	}
 	if !f.tracked() {
 		return f.File.Write(b)
-	}
-	if vsched.Active {
-		vsched.Visible(vsched.KFS, fobj(f.id, true))
 	}
 	n, err := f.File.Write(b)
 	tab.mu.Lock()
@@ -318,11 +312,11 @@ func (f *File) Write(b []byte) (int, error) {
 func (f *File) WriteString(s string) (int, error) { return f.Write([]byte(s)) }
 
 func (f *File) WriteAt(b []byte, off int64) (int, error) {
+	if vsched.Active {
+		vsched.Visible(vsched.KFS, f.cobj(true))
+	}
 	if !f.tracked() {
 		return f.File.WriteAt(b, off)
-	}
-	if vsched.Active {
-		vsched.Visible(vsched.KFS, fobj(f.id, true))
 	}
 	n, err := f.File.WriteAt(b, off)
 	tab.mu.Lock()
@@ -349,25 +343,25 @@ func (f *File) WriteTo(w io.Writer) (int64, error) {
 }
 
 func (f *File) ReadAt(b []byte, off int64) (int, error) {
-	if f.tracked() && vsched.Active {
-		vsched.Visible(vsched.KFS, fobj(f.id, false))
+	if vsched.Active && !f.isDir {
+		vsched.Visible(vsched.KFS, f.cobj(false))
 	}
 	return f.File.ReadAt(b, off)
 }
 
 func (f *File) Read(b []byte) (int, error) {
-	if f.tracked() && vsched.Active {
-		vsched.Visible(vsched.KFS, fobj(f.id, false))
+	if vsched.Active && !f.isDir {
+		vsched.Visible(vsched.KFS, f.cobj(false))
 	}
 	return f.File.Read(b)
 }
 
 func (f *File) Truncate(size int64) error {
+	if vsched.Active {
+		vsched.Visible(vsched.KFS, f.cobj(true))
+	}
 	if !f.tracked() {
 		return f.File.Truncate(size)
-	}
-	if vsched.Active {
-		vsched.Visible(vsched.KFS, fobj(f.id, true))
 	}
 	err := f.File.Truncate(size)
 	if err == nil {
@@ -382,19 +376,19 @@ func (f *File) Truncate(size int64) error {
 }
 
 func (f *File) Sync() error {
+	if vsched.Active {
+		if f.isDir {
+			vsched.Visible(vsched.KFS, vsched.Acc{Obj: vsched.Str("D:" + f.path)})
+		} else {
+			vsched.Visible(vsched.KFS, f.cobj(false))
+		}
+	}
 	tab.mu.Lock()
 	tracking := tab.tracking
 	inroot := f.isDir && (tab.in(f.path) || f.path == tab.root)
 	tab.mu.Unlock()
 	if !tracking || (!f.tracked() && !inroot) {
 		return f.File.Sync()
-	}
-	if vsched.Active {
-		if f.isDir {
-			vsched.Visible(vsched.KFS, vsched.Acc{Obj: vsched.Str("D:" + f.path)})
-		} else {
-			vsched.Visible(vsched.KFS, fobj(f.id, false))
-		}
 	}
 	err := f.File.Sync()
 	if err == nil {
@@ -416,11 +410,7 @@ func (f *File) Close() error { return f.File.Close() }
 func Stat(name string) (FileInfo, error) {
 	clean := filepath.Clean(name)
 	if vsched.Active {
-		if id := idOf(clean); id != 0 {
-			vsched.Visible(vsched.KFS, pobj(clean), fobj(id, false))
-		} else {
-			vsched.Visible(vsched.KFS, pobj(clean))
-		}
+		vsched.Visible(vsched.KFS, pobj(clean))
 	}
 	return os.Stat(name)
 }
@@ -429,14 +419,14 @@ func Lstat(name string) (FileInfo, error) { return Stat(name) }
 
 func Remove(name string) error {
 	clean := filepath.Clean(name)
+	if vsched.Active {
+		vsched.Visible(vsched.KFS, pobjW(clean), dobj(clean, true))
+	}
 	tab.mu.Lock()
 	tracked := tab.in(clean)
 	tab.mu.Unlock()
 	if !tracked {
 		return os.Remove(name)
-	}
-	if vsched.Active {
-		vsched.Visible(vsched.KFS, pobjW(clean), dobj(clean, true))
 	}
 	err := os.Remove(name)
 	if err == nil {
@@ -452,14 +442,14 @@ func Remove(name string) error {
 
 func Rename(oldpath, newpath string) error {
 	o, n := filepath.Clean(oldpath), filepath.Clean(newpath)
+	if vsched.Active {
+		vsched.Visible(vsched.KFS, pobjW(o), pobjW(n), dobj(o, true))
+	}
 	tab.mu.Lock()
 	tracked := tab.in(o) || tab.in(n)
 	tab.mu.Unlock()
 	if !tracked {
 		return os.Rename(oldpath, newpath)
-	}
-	if vsched.Active {
-		vsched.Visible(vsched.KFS, pobjW(o), pobjW(n), dobj(o, true), dobj(n, true))
 	}
 	err := os.Rename(oldpath, newpath)
 	if err == nil {
